@@ -127,6 +127,139 @@ example :
     (parseResponse false 4096 s).isSuccess = true ∧
     ∀ k, k < s.length → (parseResponse false 4096 (s.take k)).isSuccess = false := by decide
 
+/-! ### serialised chunked bodies -/
+
+/-- Every strict prefix of what the chunked writer produces for ANY split of a body into
+non-empty chunks (followed by the final CRLF) is an error for the body reader, and what was
+handed out before the error is a prefix of the body. -/
+theorem serialized_chunked_cut {B : Nat} (hB : 18 ≤ B) {m : Msg} (hf : m.framing = .chunked)
+    (chunks : List Bytes) (hne : ∀ c ∈ chunks, c ≠ []) (hsz : ∀ c ∈ chunks, c.length < 2 ^ 61)
+    (k : Nat) (hk : k < (encodeChunked chunks ++ [CR, LF]).length) :
+    (readBody B m ((encodeChunked chunks ++ [CR, LF]).take k)).ok = false ∧
+    (readBody B m ((encodeChunked chunks ++ [CR, LF]).take k)).data <+: chunks.flatten := by
+  have hfull := chunked_body_roundtrip hB hf chunks hne hsz []
+  simp only [List.append_nil] at hfull
+  generalize hw : encodeChunked chunks ++ [CR, LF] = w at *
+  have hs : w = w.take k ++ w.drop k := (List.take_append_drop k w).symm
+  constructor
+  · cases hok : (readBody B m (w.take k)).ok with
+    | false => rfl
+    | true =>
+      exfalso
+      have hext := body_deterministic_end hok (by rw [hf]; simp) (w.drop k)
+      rw [← hs, hfull] at hext
+      have hrest := congrArg BodyRes.rest hext
+      simp only at hrest
+      have hnil : w.drop k = [] := by
+        have := congrArg List.length hrest
+        simp at this
+        exact List.eq_nil_of_length_eq_zero (by simp; omega)
+      have : (w.drop k).length = w.length - k := List.length_drop
+      rw [hnil] at this
+      simp at this
+      omega
+  · have := readBody_data_prefix B m (w.take k) (w.drop k)
+    rw [← hs, hfull] at this
+    exact this
+
+/-! ### the same at round-trip level (`readResponse`: informational responses skipped) -/
+
+theorem final_head_deterministic_end {fuel : Nat} {isHead : Bool} {s r : Bytes} {m : Msg}
+    (h : parseFinalHead fuel isHead s = some (m, r)) (t : Bytes) :
+    parseFinalHead fuel isHead (s ++ t) = some (m, r ++ t) := by
+  induction fuel generalizing s with
+  | zero => simp [parseFinalHead] at h
+  | succ f ih =>
+    simp only [parseFinalHead] at h ⊢
+    cases hp : parseHead isHead s with
+    | none => simp [hp] at h
+    | some q =>
+      obtain ⟨m1, r1⟩ := q
+      simp only [hp] at h
+      rw [head_deterministic_end hp t]
+      simp only
+      split at h
+      · next hc => rw [if_pos hc]; exact ih h
+      · next hc =>
+        rw [if_neg hc]
+        simp only [Option.some.injEq, Prod.mk.injEq] at h
+        obtain ⟨rfl, rfl⟩ := h
+        rfl
+
+theorem final_deterministic_end {isHead : Bool} {B : Nat} {s : Bytes} {m : Msg} {b : BodyRes}
+    (h : parseFinal isHead B s = .resp m b) (hok : b.ok = true)
+    (hf : m.framing ≠ .untilClose) (t : Bytes) :
+    parseFinal isHead B (s ++ t) = .resp m { b with rest := b.rest ++ t } := by
+  unfold parseFinal at h ⊢
+  cases hh : parseFinalHead 6 isHead s with
+  | none => simp [hh] at h
+  | some p =>
+    obtain ⟨m', r⟩ := p
+    simp only [hh, Outcome.resp.injEq] at h
+    obtain ⟨rfl, rfl⟩ := h
+    simp only [final_head_deterministic_end hh t]
+    rw [body_deterministic_end hok hf t]
+
+/-- `cut_delivers_prefix` for the response a round trip returns. -/
+theorem final_cut_delivers_prefix {isHead : Bool} {B : Nat} {s : Bytes} {m : Msg} {b : BodyRes}
+    (h : parseFinal isHead B s = .resp m b) (k : Nat) :
+    parseFinal isHead B (s.take k) = .reject ∨
+    ∃ b', parseFinal isHead B (s.take k) = .resp m b' ∧ b'.data <+: b.data := by
+  unfold parseFinal at h ⊢
+  cases hp : parseFinalHead 6 isHead (s.take k) with
+  | none => left; rfl
+  | some q =>
+    obtain ⟨m', r'⟩ := q
+    right
+    have hs : s = s.take k ++ s.drop k := (List.take_append_drop k s).symm
+    have hfull := final_head_deterministic_end hp (s.drop k)
+    rw [← hs] at hfull
+    simp only [hfull, Outcome.resp.injEq] at h
+    obtain ⟨rfl, rfl⟩ := h
+    exact ⟨_, rfl, readBody_data_prefix B _ r' (s.drop k)⟩
+
+/-- `cut_never_success` for the response a round trip returns (any number of informational
+responses in front): every strict prefix of the exchange is an error. -/
+theorem final_cut_never_success {isHead : Bool} {B : Nat} {s : Bytes} {m : Msg} {b : BodyRes}
+    (h : parseFinal isHead B s = .resp m b)
+    (hf : m.framing ≠ .untilClose) (hrest : b.rest = [])
+    (k : Nat) (hk : k < s.length) :
+    (parseFinal isHead B (s.take k)).isSuccess = false := by
+  cases hcut : parseFinal isHead B (s.take k) with
+  | reject => rfl
+  | resp m' b' =>
+    cases hb : b'.ok with
+    | false => simp [Outcome.isSuccess, hb]
+    | true =>
+      exfalso
+      rcases final_cut_delivers_prefix h k with hr | ⟨b'', hr, _⟩
+      · rw [hr] at hcut; cases hcut
+      · rw [hr] at hcut
+        simp only [Outcome.resp.injEq] at hcut
+        obtain ⟨rfl, rfl⟩ := hcut
+        have hs : s = s.take k ++ s.drop k := (List.take_append_drop k s).symm
+        have hext := final_deterministic_end hr hb hf (s.drop k)
+        rw [← hs, h] at hext
+        simp only [Outcome.resp.injEq] at hext
+        have : b.rest = b''.rest ++ s.drop k := by rw [hext.2]
+        rw [hrest] at this
+        have hnil : s.drop k = [] := by
+          have := congrArg List.length this
+          simp at this
+          exact List.eq_nil_of_length_eq_zero (by simp; omega)
+        have : (s.drop k).length = s.length - k := List.length_drop
+        rw [hnil] at this
+        simp at this
+        omega
+
+/-- `100 Continue` in front of a 2-byte Content-Length response: success only for the whole. -/
+example :
+    let s : Bytes := [72,84,84,80,47,49,46,49,32,49,48,48,32,67,13,10,13,10,
+      72,84,84,80,47,49,46,49,32,50,48,48,32,79,75,13,10,
+      67,111,110,116,101,110,116,45,76,101,110,103,116,104,58,32,50,13,10,13,10,104,105]
+    (parseFinal false 4096 s).isSuccess = true ∧
+    ∀ k, k < s.length → (parseFinal false 4096 (s.take k)).isSuccess = false := by decide
+
 /-! ### declared length -/
 
 theorem declared_length_exact {B : Nat} {m : Msg} {n : Nat} (s : Bytes)
